@@ -1,3 +1,37 @@
-From Ebml Require Import Base Tools Spec Reader.
-Example C07_ex : ebml_size 127 1 = SUnknown /\ ebml_size 127 2 = SKnown 127.
-Proof. vm_compute. split; reflexivity. Qed.
+(* C07 — unknown-size masters end where EBML says; same tags as the known-size encoding.  Statements only. *)
+From Ebml Require Import Base Tools Spec Writer Reader Pure Encode Proofs.Tactics Proofs.SpecProofs Proofs.PureProofs Proofs.RoundTrip.
+
+(* which elements end an open unknown-size master: exactly a parent instance, a sibling, or a root element — by definition
+   of is_ended_by; the closing loop over the stack of open masters closes exactly the innermost run of unknown-size masters
+   whose outermost member is ended by the element (C11_closed_is_rule / C11_closed_is_max), and nothing when the innermost
+   open master has a known size *)
+Theorem C07_closing_rule : forall sp tid stk, closes sp tid stk (count_ended sp tid stk).
+Proof. exact count_ended_closes. Qed.
+Theorem C07_closing_max : forall sp tid stk k, closes sp tid stk k -> (k <= count_ended sp tid stk)%nat.
+Proof. exact count_ended_max. Qed.
+
+(* two conforming documents with the same tags read as the same tag sequence, whatever masters each encodes with unknown
+   size and whatever size widths each uses (PARTIAL: declared paths without global placeholders) *)
+Theorem C07_encoding_choices_irrelevant_partial : forall c f g, strict c -> c_buffered c = [] -> c_emit_eof c = true ->
+  Forall (conf c []) f -> Forall (conf c []) g -> tags_forest f = tags_forest g ->
+  map out_tag (p_run c (enc_forest f) [RAll]) = map out_tag (p_run c (enc_forest g) [RAll]).
+Proof. exact encoding_choices_irrelevant. Qed.
+
+(* where each End comes out: right before the next element that is not inside the master, or at the end of input — this is
+   the item sequence [items_forest] the reader is proved to yield *)
+Theorem C07_items_partial : forall c f, strict c -> c_buffered c = [] -> c_emit_eof c = true -> Forall (conf c []) f ->
+  p_run c (enc_forest f) [RAll] = items_forest 0 f ++ [ONone].
+Proof. exact reader_roundtrip. Qed.
+
+Example C07_ex :
+  let sp := [ {| e_id := 129; e_ty := DMaster; e_path := [] |}; {| e_id := 16643; e_ty := DMaster; e_path := [PId 129] |};
+              {| e_id := 16642; e_ty := DBinary; e_path := [PId 129; PId 16643] |}; {| e_id := 16641; e_ty := DUInt; e_path := [PId 129] |} ] in
+  let c := {| c_sp := sp; c_allow_id := false; c_allow_hier := false; c_allow_over := false; c_max := Some 4000000000; c_buffered := [];
+              c_emit_eof := true |} in
+  let doc u1 u2 := [ RNode 129 u1 [ RNode 16643 u2 [ RLeaf 16642 (VB [7]) [7] 1%nat ]; RLeaf 16641 (VU 5) [5] 1%nat ] ] in
+  (* nested unknown-size masters closed by an element of the outer level: all four encodings give the same tags *)
+  map out_tag (p_run c (enc_forest (doc None None)) [RAll]) = map out_tag (p_run c (enc_forest (doc (Some 1%nat) (Some 2%nat))) [RAll]) /\
+  map out_tag (p_run c (enc_forest (doc None (Some 1%nat))) [RAll]) = map out_tag (p_run c (enc_forest (doc (Some 8%nat) None)) [RAll]) /\
+  map out_tag (p_run c (enc_forest (doc None None)) [RAll]) =
+    [Some (TStart 129); Some (TStart 16643); Some (TElem 16642 (VB [7])); Some (TEnd 16643); Some (TElem 16641 (VU 5)); Some (TEnd 129); None].
+Proof. vm_compute. repeat split; reflexivity. Qed.
